@@ -88,11 +88,18 @@ def make_tree_doc(rng, like=None):
         taxa_order = list(labs)
         if like is not None and rng.random() < 0.5:
             rng.shuffle(taxa_order)         # the other document lists the same taxa in another order
-        text = "#NEXUS\n%sBEGIN TAXA;\n  DIMENSIONS NTAX=%d;\n  TAXLABELS %s;\nEND;\n" % (
-            "[file comment]\n" if block_comments else "", n, " ".join(quote(l) for l in taxa_order))
+        # what Mesquite writes: titled TAXA blocks that the other blocks LINK to; the second TAXA block (other taxa, another
+        # NTAX) is the last one read before the TREES blocks
+        titled = rng.random() < 0.25
+        link = "  LINK TAXA = first;\n" if titled else ""
+        text = "#NEXUS\n%sBEGIN TAXA;\n%s  DIMENSIONS NTAX=%d;\n  TAXLABELS %s;\nEND;\n" % (
+            "[file comment]\n" if block_comments else "", "  TITLE first;\n" if titled else "", n, " ".join(quote(l) for l in taxa_order))
+        if titled:
+            text += "BEGIN TAXA;\n  TITLE second;\n  DIMENSIONS NTAX=2;\n  TAXLABELS zz_other_1 zz_other_2;\nEND;\n"
         if like is None and rng.random() < 0.35:
             nchar = rng.randint(2, 6)
-            text += "BEGIN CHARACTERS;\n  DIMENSIONS NCHAR=%d;\n  FORMAT DATATYPE=DNA MISSING=? GAP=-;\n  MATRIX\n" % nchar
+            text += "BEGIN CHARACTERS;\n%s  DIMENSIONS NCHAR=%d;\n  FORMAT DATATYPE=DNA MISSING=? GAP=-;\n  MATRIX\n" % (
+                ("  TITLE chars1;\n" + link) if titled else "", nchar)
             for l in labs:
                 text += "    %s  %s\n" % (quote(l), "".join(rng.choice("ACGT") for _ in range(nchar)))
             text += "  ;\nEND;\nBEGIN SETS;\n"
@@ -108,6 +115,8 @@ def make_tree_doc(rng, like=None):
         cols = []
         for b in range(nblocks):
             text += "BEGIN TREES;\n"
+            if titled:
+                text += "  TITLE trees%d;\n%s" % (b, link)
             if block_comments and rng.random() < 0.7:
                 text += rng.choice(["  [block comment]\n", "  [&blockmeta=1]\n", "  [one] [two]\n"])
             translate = rng.random() < (0.4 if like is None else 0.8)
@@ -134,6 +143,10 @@ def make_tree_doc(rng, like=None):
                 if multiline and "'" not in s and "[" not in s:
                     s = s.replace(",", ",\n      ")       # a statement may span lines
                 text += "  TREE %s = %s\n" % (rng.choice(["t%d" % i, "'tree %d'" % i]), s)
+                if rng.random() < 0.12:
+                    # a statement of the old UTREE kind right after a tree: whatever the library makes of it (it skips it), every
+                    # route has to make the same of it
+                    text += "  UTREE u%d = %s\n" % (i, s)
                 if block_comments and rng.random() < 0.3:
                     text += "  [between trees]\n"
             text += "END;\n"
@@ -265,6 +278,8 @@ class C13(Machine):
                 return
             ref_all = [canon_tree(t) for t in r_all]
             ref_cols = [[canon_tree(t) for t in c] for c in r_cols]
+            if "UTREE" in text:
+                cols = [len(c) for c in ref_cols]       # (how a UTREE statement counts is the library's business, as long as all routes agree)
             if [len(c) for c in ref_cols] != list(cols) or sum(cols) != len(ref_all):
                 rec.violation("REFERENCE_INCONSISTENT", {"schema": schema},
                               "TreeList.get delivers %d trees, per collection %s, document holds %s" % (len(ref_all), [len(c) for c in ref_cols], cols))
